@@ -34,6 +34,7 @@ Record allow := mkAllow {
 }.
 
 Definition f9 := KnownFinding "C16/race-IsNamespaceScoped-read".
+Definition f9b := KnownFinding "C16/race-unlocked-read-vs-reinit-after-explicit-version".
 Definition api_only := NotOnRunPath "public API of kyaml/openapi that krusty.Run never calls".
 Definition goplugins := OutOfScope "Go-plugin registry: only touched when a Go plugin (.so) is loaded; plugins are disabled by krusty.MakeDefaultOptions and outside the property's trees".
 Definition shorthand := OutOfScope "kyaml/fieldmeta.shortHandRef is written only by SetShortHandRef (cmd/config CLI set-up), never during a build".
@@ -45,8 +46,9 @@ Definition allow_list : list allow := [
   (* sites that clear schemaInit: only executed for a custom schema / an explicit version / by ResetOpenAPI *)
   mkAllow "kyaml/openapi" "SetSchema" "kyaml/openapi.globalSchema.schemaInit" AWrite 0
           (ResetSite "the build installs a custom schema (openapi: path) — outside C16's domain");
-  mkAllow "kyaml/openapi" "SetSchema" "kyaml/openapi.globalSchema.schemaInit" AWrite 1
-          (ResetSite "the build names a built-in version explicitly (openapi: version) — excluded by default_build / see C16 design notes");
+  (* ... including the DEFAULT built-in version spelled out: such a build is inside C16's domain, and the re-run of
+     initSchema it provokes races with the unlocked reads of other builds: confirmed finding *)
+  mkAllow "kyaml/openapi" "SetSchema" "kyaml/openapi.globalSchema.schemaInit" AWrite 1 f9b;
   mkAllow "kyaml/openapi" "ResetOpenAPI" "kyaml/openapi.globalSchema" AWrite 0
           (ResetSite "ResetOpenAPI is test/API-only: not reachable from krusty.Run");
   (* rootSchema hands out &globalSchema.schema after initSchema(); its users (Resolve) only read through it *)
